@@ -6090,6 +6090,9 @@ class PyCdlib:
         if signature != b'\xfb\xc0\x78\x70':
             raise pycdlibexception.PyCdlibInvalidInput('Invalid signature on boot file for iso hybrid')
 
+        if part_entry < 1 or part_entry > 4:
+            raise pycdlibexception.PyCdlibInvalidInput('The partition entry must be between 1 and 4')
+
         # Only replace the current state once the new one has been accepted.
         new_isohybrid = isohybrid.IsoHybrid()
         new_isohybrid.new(efi, mac, part_entry, mbr_id, part_offset,
